@@ -237,6 +237,11 @@ class DistinctCountCheck(AbstractCheck):
         fields.field_name_index(self._field_name_to_count, available_field_names, location)
         line_where_field_name_ends, column_where_field_name_ends = first_token[3]
         assert column_where_field_name_ends > 0
+        if line_where_field_name_ends != 1:
+            # For example a rule starting with a backslash and a line break.
+            raise errors.InterfaceError(
+                "rule must start with a field name in its first line but found: %r" % rule, self.location_of_rule
+            )
         assert line_where_field_name_ends == 1
 
         # Build and test Python expression for validation.
@@ -257,7 +262,8 @@ class DistinctCountCheck(AbstractCheck):
         """
         local_variables = {DistinctCountCheck._COUNT_NAME: self._distinct_count()}
         try:
-            result = eval(self._expression, {}, local_variables)
+            # Only "count" can be used in the expression, in particular no builtin functions such as exit().
+            result = eval(self._expression, {"__builtins__": {}}, local_variables)
         except Exception as message:
             raise errors.InterfaceError(
                 "cannot evaluate count expression %r: %s" % (self._expression, message), self.location_of_rule
